@@ -220,7 +220,16 @@ pub fn build(spec: &Spec) -> World {
     match spec.fault {
         StageFault::None | StageFault::NoTrustedKey | StageFault::WrongTrustedKey | StageFault::UnresolvableLinkDir(_) => {}
         StageFault::BadOwnerSignature => w.sigs[0].corrupt = Some(Corrupt::BitFlip(9)),
-        StageFault::Expired => w.layout.expires = 1_000_000_000,
+        // long ago, or only ninety seconds, five hours or just under a day before this verification
+        StageFault::Expired => {
+            let now = chrono::Utc::now().timestamp();
+            w.layout.expires = match spec.fault_step % 4 {
+                0 => 1_000_000_000,
+                1 => now - 90,
+                2 => now - 5 * 3600,
+                _ => now - 86_000,
+            }
+        }
         StageFault::MissingLink => {
             let name = w.layout.steps[si].name.clone();
             w.links.retain(|f| f.step != name);
